@@ -97,12 +97,12 @@ members: `Equivalent` symmetric, equivalent members hashed alike — the contrac
 `wf_setVal_counterexample` is the witness, with the hashes the real code computes (harness finding
 `set-duplicate:equal-numbers-hash-by-String()-differs`). -/
 def SetValWF : Prop :=
-  ∀ (ws : List Value) (hs : List Int) (r : Value), setVal ws hs = .ok r →
+  ∀ (ws : List Value) (hs : List Int) (r : Value), setValH ws hs = .ok r →
     (∀ w ∈ ws, w.WF (fun _ => true) = true) → r.WF (fun _ => true) = true
 
 /-- `SetVal`, whenever it returns, given well-formed members on which the set rules are lawful: members
 deeply unmarked (their marks hoisted to the one outer layer), in bucket order, no two equivalent. -/
-theorem wf_setVal_partial {ws : List Value} {hs : List Int} {r : Value} (h : setVal ws hs = .ok r)
+theorem wf_setVal_partial {ws : List Value} {hs : List Int} {r : Value} (h : setValH ws hs = .ok r)
     (hws : ∀ w ∈ ws, w.WF nfc = true)
     (hok : ∀ et, Gocty.elemTypeOf .dyn (ws.map setMember) = .ok et →
       setRulesOk et ((Gocty.payloads (ws.map setMember)).zip hs) = true) : r.WF nfc = true :=
@@ -115,12 +115,12 @@ def dupHashes : List Int := [3082649553, 2741159366]
 
 theorem wf_setVal_counterexample :
     (∀ w ∈ dupMembers, w.WF (fun _ => true) = true) ∧
-    ∃ r, setVal dupMembers dupHashes = .ok r ∧ r.WF (fun _ => true) = false := by
+    ∃ r, setValH dupMembers dupHashes = .ok r ∧ r.WF (fun _ => true) = false := by
   refine ⟨by decide, ?_⟩
-  have hok : (match setVal dupMembers dupHashes with
+  have hok : (match setValH dupMembers dupHashes with
       | .ok r => !r.WF (fun _ => true)
       | _ => false) = true := by decide
-  cases h : setVal dupMembers dupHashes with
+  cases h : setValH dupMembers dupHashes with
   | ok r => rw [h] at hok; exact ⟨r, rfl, by simpa using hok⟩
   | err _ => rw [h] at hok; cases hok
   | panic _ => rw [h] at hok; cases hok
@@ -136,7 +136,7 @@ theorem setValWF_false : ¬ SetValWF := by
 /-! ## marks (cty/marks.go): "a value carries at most one layer of marks" -/
 
 /-- `Mark` flattens an existing marker: one layer, non-empty mark set. -/
-theorem wf_mark {v : Value} (m : String) (h : v.WF nfc = true) : (v.mark m).WF nfc = true := Value.wf_mark m h
+theorem wf_mark {v : Value} (m : String) (h : v.WF nfc = true) : (v.mark1 m).WF nfc = true := Value.wf_mark m h
 
 /-- `WithMarks` (and `WithSameMarks`): merges into the single layer; with nothing to add it returns the value. -/
 theorem wf_withMarks {v : Value} (ms : List String) (h : v.WF nfc = true) : (v.withMarks ms).WF nfc = true :=
@@ -278,9 +278,9 @@ example : Value.WF (fun s => s != "é") ⟨.map .string, .smap ["é"] [.s "x"]
 example : Value.WF (fun _ => true) ⟨.set .string, .sset [5, 5] [.s "x", .s "x"]⟩ = false := by decide
 -- `setRulesOk` holds of ordinary members (and a marked member is hoisted)
 example : setRulesOk .string [(.s "a", 1), (.s "b", 2), (.s "a", 1)] = true := by decide
-example : (setVal [⟨.string, .s "a"⟩, ⟨.string, .marked ["m"] (.s "b")⟩, ⟨.string, .s "a"⟩] [1, 2, 1]).isOk = true := by
+example : (setValH [⟨.string, .s "a"⟩, ⟨.string, .marked ["m"] (.s "b")⟩, ⟨.string, .s "a"⟩] [1, 2, 1]).isOk = true := by
   decide
-example : (match setVal [⟨.string, .s "a"⟩, ⟨.string, .marked ["m"] (.s "b")⟩, ⟨.string, .s "a"⟩] [1, 2, 1] with
+example : (match setValH [⟨.string, .s "a"⟩, ⟨.string, .marked ["m"] (.s "b")⟩, ⟨.string, .s "a"⟩] [1, 2, 1] with
     | .ok r => r.WF (fun _ => true) && r.isMarked | _ => false) = true := by decide
 example : (match Refine.refine ⟨.list .string, .marked ["m"] (.unk .unref)⟩ [.notNull, .collectionLength 2] with
     | .ok r => r.WF (fun _ => true) && r.isMarked && r.isKnown | _ => false) = true := by decide
